@@ -59,6 +59,9 @@ def gen_case(rng: random.Random, k: int) -> dict:
             r0 = recs[0]
             cuts = sorted(rng.sample([10.0, 50.0, 300.0, 1000.0, 41000.0], rng.choice([3, 4])))
             recs = [dict(r0, tmin=a, tmax=b, a=r0["a"] * (q + 1)) for q, (a, b) in enumerate(zip(cuts, cuts[1:]))] + recs[1:]
+        # KROME: the column order is the file's own (@format); the limits may come before or AFTER the rate column
+        kcols = rng.choice(["idx,R,R,R,P,P,P,P,P,Tmin,Tmax,rate", "idx,R,R,R,P,P,P,P,P,Tmin,Tmax,rate", "idx,R,R,R,P,P,P,P,P,rate,Tmin,Tmax",
+                            "Tmin,Tmax,idx,R,R,R,P,P,P,P,P,rate", "idx,Tmax,R,R,R,P,P,P,P,P,rate,Tmin"]) if k % 2 else "idx,R,R,R,P,P,P,P,P,Tmin,Tmax,rate"
         for rec in recs:
             tmin_text = tmax_text = None
             if fmt == "krome":
@@ -71,7 +74,7 @@ def gen_case(rng: random.Random, k: int) -> dict:
                         ut, uv = rng.choice(KROME_EXOTIC_TEXT)
                     may_refuse = True
                 rec["tmin"], rec["tmax"] = tv, uv
-                line = encoders.krome(rec, tmin_text=tt, tmax_text=ut)
+                line = encoders.krome(rec, fmt=kcols, tmin_text=tt, tmax_text=ut)
             else:
                 if fmt in ("kida", "leeds"):
                     rec["tmin"], rec["tmax"] = float(int(rec["tmin"])), float(int(rec["tmax"]))
@@ -82,7 +85,7 @@ def gen_case(rng: random.Random, k: int) -> dict:
             idx = -1 if fmt == "uclchem" else rec["idx"]
             declared.append({"tmin": int(round(rec["tmin"] * 100)), "tmax": int(round(rec["tmax"] * 100)), "idx": idx, "fmt": fmt, "line": line})
             used_idx.append(idx)
-        header = "@format:idx,R,R,R,P,P,P,P,P,Tmin,Tmax,rate\n" if fmt == "krome" else ""
+        header = f"@format:{kcols}\n" if fmt == "krome" else ""
         files.append((fmt, header + "\n".join(lines) + "\n"))
     keys = []
     if rng.random() < 0.7:
@@ -340,7 +343,8 @@ def main(ctx: Ctx) -> int:
                 for kname, facts in sorted(creader.batch_context((out2 / "src" / f"naunet_{unit}.cu").read_text()).items()):
                     tid += 1
                     traces.append({"tid": tid, "R": [], "mods": [], "be": f"cusparse {kname}",
-                                   "ev": [{"act": "Batch", "calls": facts["calls"], "own_params": facts["own_params"], "own_state": facts["own_state"]}]})
+                                   "ev": [{"act": "Batch", "calls": facts["calls"], "own_params": facts["own_params"], "own_state": facts["own_state"],
+                                           "cleared": facts["k_cleared_per_system"]}]})
                     meta[tid] = ci2
         cov["batched_kernels_checked"] = sum(1 for t_ in traces if t_["be"].startswith("cusparse"))
     if pid == "C06":
